@@ -423,6 +423,10 @@ class DrvDomain(Domain):
             return Opaque("arith")
         ok = lambda x: is_scalar_term(x) or num(x)
         if ok(a) and ok(b):
+            if op == "/" and num(b) and b == 0:
+                # the denominator is still its placeholder constant on this path: the quotient is inf or NaN whatever the numerator
+                self.event("nan", ir.locstr(e), "floating-point division of '%s' by a denominator that is the constant 0 on this path (never assigned from this solve): the result (inf or NaN) is reported as a statistic" % show(a)[:80])
+                return S("NaN")
             return S(op, a, b)
         raise AnalysisBroken("binary %s on %r, %r at %s" % (op, a, b, ir.locstr(e)))
 
